@@ -57,3 +57,11 @@ impl SharedState {
         })
     }
 }
+
+#[cfg(unimock_verif)]
+impl SharedState {
+    pub(crate) fn verif_next_ordered(&self) -> usize {
+        self.next_ordered_call_index
+            .load(core::sync::atomic::Ordering::SeqCst)
+    }
+}
